@@ -241,7 +241,8 @@ class NucleationMonitor:
             # documented rule: all sites - sites used up by every phase nucleating on the same kind of site + sites on parent precipitates
             # (configurations with a dislocation-sited phase are left to the bounds above: that site type resolves through the bulk branch)
             ref = max(N0 - occ + par, 0.0)
-            if abs(v - ref) > 1e-9 * max(abs(ref), N0 * 1e-12, 1e-300) + 1e-6:
+            # (N0 - occupied cancels when the sites are nearly used up: rounding of the large terms, not of the small difference, sets the scale)
+            if abs(v - ref) > 1e-9 * max(abs(ref), N0 * 1e-12, 1e-300) + 1e-6 + 64 * np.finfo(float).eps * (abs(N0) + abs(occ) + abs(par)):
                 F.add('C14.site_budget', f't={t}: available {site} sites = {v!r}, reference N0 - occupied by all phases on this site type + parent sites = {ref!r} (N0={N0!r}, occupied={occ!r}, parent sites={par!r})', site=site, clause='reference')
         # decreases as precipitates occupy sites: if every phase's occupancy moments grew (and no parent surface is involved), the value must not rise
         key = ('sites', p)
@@ -249,7 +250,7 @@ class NucleationMonitor:
         cur_m = [(mm[0], mm[1], mm[2]) for mm in mom]
         if prev is not None and not self.parents[p]:
             pv, pm = prev
-            if len(pm) == len(cur_m) and all(c[j] >= q_[j] for c, q_ in zip(cur_m, pm) for j in range(3)) and v > pv * (1 + 1e-12) + 1e-6:
+            if len(pm) == len(cur_m) and all(c[j] >= q_[j] for c, q_ in zip(cur_m, pm) for j in range(3)) and v > pv * (1 + 1e-12) + 1e-6 + 64 * np.finfo(float).eps * (abs(N0) + abs(occ)):
                 F.add('C14.site_budget', f't={t}: occupancy of every phase grew but the available {site} sites for phase {p} rose from {pv!r} to {v!r}', site=site, clause='monotone')
         self.prev[key] = (v, cur_m)
         if occ > 0:
